@@ -952,20 +952,25 @@ class Segment(Geodesic):
         a22 = products[..., 1, 1]
         a12 = products[..., 0, 1]
 
-        a = a11 - 2 * a12 + a22
-        b = 2 * a12 - 2 * a22
-        c = a22
+        # the null vectors of the span are s * end_data[0] + t * end_data[1]
+        # with a11 s^2 + 2 a12 s t + a22 t^2 = 0. each root (s : t) has
+        # the two expressions below; at most one of them degenerates
+        # (when an endpoint is lightlike), so use the larger one. This
+        # stays valid when the difference of the two representatives is
+        # itself lightlike.
+        disc = np.sqrt(a12 * a12 - a11 * a22)
 
-        mu1 = (-b + np.sqrt(b * b - 4 * a * c)) / (2*a)
-        mu2 = (-b - np.sqrt(b * b - 4 * a * c)) / (2*a)
+        def null_vector(sign):
+            s1, t1 = -a12 + sign * disc, a11
+            s2, t2 = a22, -a12 - sign * disc
+            use_first = (np.abs(s1) + np.abs(t1) >=
+                         np.abs(s2) + np.abs(t2))
+            s = np.where(use_first, s1, s2)
+            t = np.where(use_first, t1, t2)
+            return (s[..., np.newaxis] * end_data[..., 0, :] +
+                    t[..., np.newaxis] * end_data[..., 1, :])
 
-        null1 = (mu1[..., np.newaxis] * end_data[..., 0, :] +
-                 (1 - mu1)[..., np.newaxis] * end_data[..., 1, :])
-
-        null2 = (mu2[..., np.newaxis] * end_data[..., 0, :] +
-                 (1 - mu2)[..., np.newaxis] * end_data[..., 1, :])
-
-        ideal_basis = np.stack([null1, null2], axis=-2)
+        ideal_basis = np.stack([null_vector(1), null_vector(-1)], axis=-2)
 
         return ideal_basis
 
